@@ -29,19 +29,36 @@ WORKERS = int(os.environ.get("VERIF_WORKERS", "6"))
 
 # ------------------------------------------------------------------------------------ model (per-run extraction)
 def build_model(run):
-    d = os.path.join(run.scratch, "model")
-    os.makedirs(d, exist_ok=True)
-    if not os.path.exists(os.path.join(run.gen, "Gen_Registry.vo")):
-        p = sh(["timeout", "300", "coqc", "-q", "-Q", THEORIES, "Snoopy", "-Q", run.gen, "Gen", os.path.join(run.gen, "Gen_Registry.v")], check=False)
+    """Per-run extraction.  The tables come from run.gen_models: the Gen_Registry.v of this run, or - after a broken obligation -
+    the reference one (reference/gen, saved from the last tree on which every obligation held), so that the search below
+    measures the implementation against the VERIFIED model and never against a translation the proofs rejected."""
+    def attempt(gen, tag):
+        d = os.path.join(run.scratch, "model-" + tag)
+        os.makedirs(d, exist_ok=True)
+        if not os.path.exists(os.path.join(gen, "Gen_Registry.vo")):
+            p = sh(["timeout", "300", "coqc", "-q", "-Q", THEORIES, "Snoopy", "-Q", gen, "Gen", os.path.join(gen, "Gen_Registry.v")], check=False)
+            if p.returncode != 0:
+                return None, "Gen_Registry.v (%s) does not compile: %s" % (tag, p.stdout[-600:])
+        shutil.copy(os.path.join(VERIF, "coq", "extract", "run", "Extract_registry_run.v"), os.path.join(d, "Extract_registry_run.v"))
+        p = sh(["timeout", "300", "coqc", "-q", "-Q", THEORIES, "Snoopy", "-Q", gen, "Gen", "Extract_registry_run.v"], cwd=d, check=False)
         if p.returncode != 0:
-            raise CheckError("Gen_Registry.v does not compile:\n" + p.stdout[-2000:])
-    ex = os.path.join(VERIF, "coq", "extract", "run", "Extract_registry_run.v")
-    shutil.copy(ex, os.path.join(d, "Extract_registry_run.v"))
-    sh(["timeout", "300", "coqc", "-q", "-Q", THEORIES, "Snoopy", "-Q", run.gen, "Gen", "Extract_registry_run.v"], cwd=d)
-    with open(os.path.join(d, "main.ml"), "w") as f:
-        f.write("open Model_registry\n" + open(os.path.join(VERIF, "ocaml", "drv_registry.ml")).read())
-    exe = os.path.join(d, "drv_registry")
-    sh(["ocamlfind", "ocamlopt", "-w", "-a", "-package", "str", "-linkpkg", "model_registry.mli", "model_registry.ml", "main.ml", "-o", exe], cwd=d, timeout=600)
+            return None, "extraction (%s) failed: %s" % (tag, p.stdout[-600:])
+        with open(os.path.join(d, "main.ml"), "w") as f:
+            f.write("open Model_registry\n" + open(os.path.join(VERIF, "ocaml", "drv_registry.ml")).read())
+        exe = os.path.join(d, "drv_registry")
+        p = sh(["ocamlfind", "ocamlopt", "-w", "-a", "-package", "str", "-linkpkg", "model_registry.mli", "model_registry.ml", "main.ml", "-o", exe], cwd=d, timeout=600, check=False)
+        if p.returncode != 0:
+            return None, "model driver (%s) does not build: %s" % (tag, p.stdout[-600:])
+        return exe, None
+    gm = getattr(run, "gen_models", run.gen)
+    if gm != run.gen and os.path.exists(os.path.join(gm, "Gen_Registry.v")):
+        exe, err = attempt(gm, "reference")
+        if exe:
+            return exe
+        run.notes.append("reference Gen_Registry.v unusable (%s): the model is instantiated with the regenerated tables" % err)
+    exe, err = attempt(run.gen, "run")
+    if not exe:
+        raise CheckError(err)
     return exe
 
 
@@ -398,6 +415,12 @@ def diagnose(js):
         why.append("lookup functions not of the modelled shape")
     if not js.get("entries_ok", True):
         why.append("an entry point of the registries is not one of the modelled ones")
+    allowed = {("src/message.c", "snoopy_datasourceregistry_doesNameExist"), ("src/message.c", "snoopy_datasourceregistry_callByName"),
+               ("src/filtering.c", "snoopy_filterregistry_doesNameExist"), ("src/filtering.c", "snoopy_filterregistry_callByName"),
+               ("src/configfile.c", "snoopy_outputregistry_doesNameExist"), ("src/action/log-message-dispatch.c", "snoopy_outputregistry_dispatch")}
+    for f, fn in js.get("callers", []):
+        if (f, fn) not in allowed:
+            why.append("%s uses %s: not one of the known name-based uses of the registries (message.c, filtering.c, configfile.c: doesNameExist/callByName; log-message-dispatch.c: dispatch)" % (f, fn))
     if not js.get("dispatch_ok", True):
         why.append("snoopy_outputregistry_dispatch does not simply call callByName(CFG->output, ...)")
     for k in KEYS:
@@ -724,7 +747,11 @@ def replay(run, path):
         return 1
     run.snapshot()
     js = tr_registry(run)
-    # Gen must be compiled for the extraction
+    # same instantiation of the model as in the run that wrote the replay: if the obligations do not hold on this tree the
+    # verified reference tables are used (vlib/core.py fallback_to_reference), otherwise the regenerated ones
+    ok, failed, _ = run.coq_props(["Properties_C13.v"])
+    if not ok:
+        print("note: %s does not hold on this tree; the model is instantiated with the reference tables" % failed)
     model = build_model(run)
     universe = guard_universe(js)
     impl = Impl(run, js)
